@@ -17,7 +17,7 @@ import sys
 import threading
 
 ROOT = os.path.dirname(os.path.dirname(os.path.abspath(__file__)))
-BASE = "/tmp/parrun"
+BASE = f"/tmp/parrun-{os.getpid()}"
 kind = sys.argv[1]
 args = sys.argv[2:]
 N = 5
